@@ -24,7 +24,8 @@ AdvanceS(S0, r) ==
         hm == HeadMove(a.S, a.S.above, a.S.order)
     IN [a.S EXCEPT !.above = hm.above \o [j \in 1..Len(a.log) |-> LogItem(a.log[j])], !.order = hm.order]
 
-Supported(r) == r.cfg.w = W /\ r.cfg.h = H /\ r.cfg.multi /\ ~r.cfg.mphid /\ ~r.cfg.pty
+(* a spy terminal, with or without a refresh rate whose interval is a whole number of microseconds *)
+Supported(r) == r.cfg.w = W /\ r.cfg.h = H /\ r.cfg.multi /\ ~r.cfg.mphid /\ ~r.cfg.pty /\ (r.cfg.hz = 0 \/ LimExact(r.cfg.hz))
 
 R0 == [recs |-> 0, hists |-> 0, conform |-> 0, skipped |-> 0, first |-> <<>>]
 ConfInit == /\ S = <<>> /\ hist = <<>> /\ nlog = 0 /\ done = FALSE /\ I = I0 /\ m = MM0 /\ ok = TRUE
@@ -36,7 +37,7 @@ ConfNext ==
             \E t0 \in {Calls(TInit(r.cfg.w, r.cfg.h), r.calls)} :
             /\ S' = SInit(r.cfg.w, r.cfg.h, r.cfg.multi, r.cfg.mphid, r.cfg.align)
             /\ T' = t0
-            /\ m' = [MM0 EXCEPT !.d.t = t0]
+            /\ m' = [MM0 EXCEPT !.d.t = t0, !.lim = IF r.cfg.hz > 0 THEN LimNew(r.cfg.hz, 0) ELSE NoLim]
             /\ dead' = ~Supported(r)
             (* the previous history conformed if it was still alive at its end *)
             /\ res' = [res EXCEPT !.hists = @ + 1, !.conform = @ + (IF ~dead THEN 1 ELSE 0), !.skipped = @ + (IF Supported(r) THEN 0 ELSE 1)]
